@@ -1,7 +1,7 @@
 """C15 Blotter views are coherent with the orders placed — E1 simx part (2 strategies x 2 clients x
 selections x handicaps in one market; placements, replacements, completions, closure)."""
 from mc import core
-from props import simlife as L, c04
+from props import simlife as L, c04, livelife
 
 CLAUSES = {
     "C15.a": "every placed order appears exactly once in the blotter and in each view (bet-id view for replacement/adopted orders)",
@@ -41,11 +41,15 @@ def run(tier):
     rep.need("replacement_orders_seen", "placed")
     rep.rule = "BFS with dedup + deviation-bounded histories; all blotter views compared with a shadow list of accepted orders after every update and at closure"
     rep.assumptions = ["bet-id view is required only for replacement/adopted orders, as the statement says", "live-mode adoption is covered by the E2 part"]
+    livelife.explore_live(rep, ENABLED, tier)
+    rep.engine = "E1 simx + E2 livex"
     return rep.finish()
 
 
 def replay(rep):
     c = rep["case"]
+    if "path" in c:
+        return livelife.replay_live(c, ENABLED)
     r = L.run_history(c["history"], ENABLED, c.get("cfg"))
     for d in r["violations"]:
         print(d["key"], d["detail"])
